@@ -13,6 +13,8 @@ from vlib.sym import assume, choose, pinned
 # ---------------------------------------------------------------------------- fragment catalogue
 # ATTR is replaced by nothing (shape cubes) or by placeholder attributes (attribute cubes)
 
+LONG_TEXT = " ".join("word%d" % i for i in range(45))
+
 CONTAINERS = [
     ("none", "", ""),
     ("div", "<div ATTR>\n", "\n</div>"),
@@ -41,6 +43,10 @@ CONTAINERS = [
     ("tr-stray", "<table><tr>", "<td>c</td></tr></table>"),
     ("li-in-cell", "{|\n| <ul>", "<li>x</li></ul>\n|}"),
     ("unclosed-div", "<div ATTR><b>", ""),
+    # a two-column table that is not the article's infobox (more than 200 characters of text precede it)
+    ("late-table2x2", LONG_TEXT + "\n\n{| ATTR\n| a1 || a2\n|-\n| b1 || ", "\n|}"),
+    ("center-in-cell", "{|\n| c1 || <center>", "</center>\n|}"),
+    ("late-table1", "intro\n\n{| ATTR\n|", "\n|}"),
 ]
 
 LEAVES = [
@@ -73,6 +79,12 @@ LEAVES = [
     ("source", "<source lang=\"c\">int x;</source>"),
     ("editlink", "<span class=\"editlink\">[edit]</span>"),
     ("noprint", "<div class=\"noprint\">np</div>"),
+    ("bordered-table", "\n{| class=\"wikitable\"\n| n1 || n2\n|}\n"),
+    ("bordered-table-in-div", "\n<div>\n{| class=\"wikitable\"\n| n1 || n2\n|}\n</div>\n"),
+    ("table-of-lists", "\n{|\n|\n* i1\n* i2\n* i3\n* i4\n* i5\n* i6\n* i7\n|\n* j1\n* j2\n|}\n"),
+    ("long-list", "\n" + "".join("* item %d\n" % i for i in range(8))),
+    ("big-nested-table", "\n{|\n| " + LONG_TEXT + " " + LONG_TEXT + "\n|-\n| more\n|}\n"),
+    ("wide-table", "\n{|\n" + "|-\n" + "".join("| c%d " % i + ("|" if i < 7 else "\n") for i in range(8)) + "|}\n"),
 ]
 
 ATTR_PLACEHOLDER = 'id="zzid" class="zzcls" style="zzkey:zzval"'
